@@ -8,8 +8,9 @@
      * at each defect site of the current code: a refutation witness.
      * I2 (outputs <-> producer/index) separately, for every history of the repaired model over the whole alphabet
        and for every clean history of the current model (C01_outputs_reachable_fixed, C01_outputs_reachable).
-   `_partial`: for I3..I7 Graph(...) called WITH arguments is outside `in_scope` (covered by the correspondence
-   check and the oracle only). *)
+   Graph(...) WITH arguments is inside every theorem since 680d931 (no `in_scope` restriction any more).  The only
+   hypothesis left on the current code is `clean current_cfg`: the history never takes the one unrepaired branch
+   (SNodeOutputsOwned: Node(outputs=[a graph input / initializer]), refuted below and recorded as node-output-owned). *)
 From Coq Require Import ZArith List Bool Arith Lia.
 From IRV Require Import Base.Exn C01.Model C01.Store C01.ProofsA C01.ProofsB C01.ProofsC C01.ProofsD C01.Proofs C01.ProofsB2.
 Import ListNotations.
@@ -24,7 +25,7 @@ Proof. intros c ops. apply I1_run. apply I1_empty. Qed.
 Print Assumptions C01_uses_reachable.
 
 (* per-op preservation, rejected calls included *)
-Theorem C01_step_preserves_inv : forall h o, in_scope o = true -> Inv h -> Inv (fst (step all_fixed h o)).
+Theorem C01_step_preserves_inv : forall h o, Inv h -> Inv (fst (step all_fixed h o)).
 Proof. exact Inv_step. Qed.
 Print Assumptions C01_step_preserves_inv.
 
@@ -39,16 +40,15 @@ Proof. intros ops Hc. rewrite clean_run by assumption. apply I2_run_fixed. apply
 Print Assumptions C01_outputs_reachable.
 
 (* the repaired code: every history *)
-Theorem C01_inv_reachable_fixed_partial :
-  forall ops, forallb in_scope ops = true -> InvP (run all_fixed ops empty_heap).
-Proof. intros ops H. apply Inv_InvP. apply Inv_run_fixed; [assumption|apply Inv_empty]. Qed.
-Print Assumptions C01_inv_reachable_fixed_partial.
+Theorem C01_inv_reachable_fixed : forall ops, InvP (run all_fixed ops empty_heap).
+Proof. intros ops. apply Inv_InvP. apply Inv_run_fixed. apply Inv_empty. Qed.
+Print Assumptions C01_inv_reachable_fixed.
 
 (* the code as it is: every history that avoids exactly the known defect sites *)
-Theorem C01_inv_reachable_partial :
-  forall ops, forallb in_scope ops = true -> clean current_cfg ops empty_heap -> InvP (run current_cfg ops empty_heap).
-Proof. intros ops H Hc. apply Inv_InvP. apply Inv_run_clean; assumption. Qed.
-Print Assumptions C01_inv_reachable_partial.
+Theorem C01_inv_reachable :
+  forall ops, clean current_cfg ops empty_heap -> InvP (run current_cfg ops empty_heap).
+Proof. intros ops Hc. apply Inv_InvP. apply Inv_run_clean; assumption. Qed.
+Print Assumptions C01_inv_reachable.
 
 (* non-vacuity: three graphs; value 0 is input, output (listed twice) and initializer of graph 0; rejected calls included *)
 Definition demo : list op :=
@@ -57,12 +57,24 @@ Definition demo : list op :=
    NewNode 0 [Some 0; None; Some 0] (OFresh [2; 3]) (Some 1) None; IOAppend KIn 2 0 (* rejected *);
    IOAppend KIn 1 2 (* rejected: produced *); NReplaceInput 0 1 (Some 1); VSetName 0 (Some (NUser 3));
    IOPop KOut 0 0; GRemove 1 [0] true; IOPop KIn 0 7 (* rejected *)].
-Example demo_in_scope : forallb in_scope demo = true. Proof. reflexivity. Qed.
 Example demo_clean : clean current_cfg demo empty_heap.
 Proof. cbn [clean demo]. repeat (split; [vm_compute; reflexivity|]). exact I. Qed.
 Example demo_nontrivial :
   let h := run current_cfg demo empty_heap in
   iol KOut (how h) 0 = [0] /\ inits (how h) 0 = [(NUser 3, 0)] /\ flag KIn (how h) 0 = true /\ gseq (hng h) 1 = [].
+Proof. vm_compute. auto. Qed.
+
+(* non-vacuity for Graph(...) WITH arguments: inputs, outputs (one value twice), an initializer and a node in one call,
+   followed by a constructor call that is rejected (its input is already owned) *)
+Definition demo_ctor : list op :=
+  [NewValue 0 (Some (NUser 0)); NewValue 1 (Some (NUser 1)); NewNode 0 [Some 0; Some 1] (OFresh [2]) None None;
+   GraphNew 0 [0] [2; 2] [1] [0]; GraphNew 1 [0] [] [] []].
+Example demo_ctor_clean : clean current_cfg demo_ctor empty_heap.
+Proof. cbn [clean demo_ctor]. repeat (split; [vm_compute; reflexivity|]). exact I. Qed.
+Example demo_ctor_nontrivial :
+  let h := run current_cfg demo_ctor empty_heap in
+  iol KIn (how h) 0 = [0] /\ iol KOut (how h) 0 = [2; 2] /\ inits (how h) 0 = [(NUser 1, 1)] /\ gseq (hng h) 0 = [0] /\
+  snd (step current_cfg (run current_cfg (removelast demo_ctor) empty_heap) (GraphNew 1 [0] [] [] [])) = Raise ValueError.
 Proof. vm_compute. auto. Qed.
 
 (* ------------------------------------------------------------------ refutations at the defect sites.
